@@ -229,20 +229,22 @@ def imported : Nat → Index → Path → List Path → List String × List Path
   | 0, st, _, vis => ([], vis, st)
   | fuel + 1, st, f, vis =>
     if vis.contains f then ([], vis, st) else
+    -- only a traversal that STARTS at `f` yields `f`'s complete set: only that is memoised (E12 repair)
+    let top := vis.isEmpty
     let vis := f :: vis
     match st.content f with
     | none => ([], vis, st)
     | some v =>
       match alookup st.impCache f with
       | some (t, ver, names) =>
-        if t == v.text && ver == st.version then (names, vis, st) else compute fuel st f vis v
-      | none => compute fuel st f vis v
+        if t == v.text && ver == st.version then (names, vis, st) else compute top fuel st f vis v
+      | none => compute top fuel st f vis v
 where
-  compute (fuel : Nat) (st : Index) (f : Path) (vis : List Path) (v : Version) :
+  compute (top : Bool) (fuel : Nat) (st : Index) (f : Path) (vis : List Path) (v : Version) :
       List String × List Path × Index :=
     match v.parsed with
     | none =>
-      ([], vis, { st with impCache := ainsert st.impCache f (v.text, st.version, []) })
+      ([], vis, if top then { st with impCache := ainsert st.impCache f (v.text, st.version, []) } else st)
     | some fr =>
       let step1 := fr.imports.foldl (fun (acc : List String × List Path × Index) imp =>
         let (names, vis, st) := acc
@@ -266,7 +268,7 @@ where
           (unionNames (unionNames names direct) tr, vis, st))
         step1
       let (names, vis, st) := step2
-      (names, vis, { st with impCache := ainsert st.impCache f (v.text, st.version, names) })
+      (names, vis, if top then { st with impCache := ainsert st.impCache f (v.text, st.version, names) } else st)
 
 def fuelFor (st : Index) : Nat := st.cache.length + st.disk.length + 2
 
